@@ -14,6 +14,7 @@ props/C06.json.
 -/
 import ZoektModel.C06.Opens
 import ZoektModel.C06.Compose
+import ZoektModel.C06.WF
 import ZoektModel.Generated.ParseTables
 namespace ZoektModel.C06
 open ZoektModel ZoektModel.C07
@@ -234,6 +235,23 @@ theorem C06_parse_sem_partial (c : Corpus) (he : EmptyOK c) (O : Oracle) (hO : A
     parse O (renderQ g) = .ok q ∧ ∀ d, d < c.n → evalQ c q d = semQ O c none g d :=
   ⟨parse_render_eq_abstract O g q hgood hwf, fun d hd => abstract_parse_sem c he O hO g q hok hl hwf d hd⟩
 
+/-- the parser accepts the items of every well-formed tree: every atom a valid value for its field (`wfQ`: a pattern
+    `regexp/syntax` parses, a regexp `regexp.Compile` accepts, `yes`/`no` flags, non-empty `sym:`), and every `or` of
+    every group with an operand on both sides (`operandsOK`) -/
+theorem well_formed_is_accepted (O : Oracle) (hO : AutoCaseAgrees O) (g : Qy) (hw : wfQ O g = true)
+    (hop : operandsOK g = true) (hok : semOKQ g = true) : ∃ q, abstractParse O g = .ok q :=
+  abstractParse_ok O hO g hw hop hok
+
+/-- **C06_parse_sem (partial), existence form**: every covered, defined and well-formed tree's rendering parses, and
+    the parsed query selects exactly the documents the documentation says. All five conditions on `g` are
+    decidable (`wfQ` given the behaviour `O` of the regexp library). -/
+theorem C06_parse_sem_partial_wf (c : Corpus) (he : EmptyOK c) (O : Oracle) (hO : AutoCaseAgrees O) (g : Qy)
+    (hgood : goodQ g = true) (hok : semOKQ g = true) (hl : (typesOfQ g).length ≤ 1)
+    (hw : wfQ O g = true) (hop : operandsOK g = true) :
+    ∃ q, parse O (renderQ g) = .ok q ∧ ∀ d, d < c.n → evalQ c q d = semQ O c none g d := by
+  obtain ⟨q, hq⟩ := well_formed_is_accepted O hO g hw hop hok
+  exact ⟨q, C06_parse_sem_partial c he O hO g q hgood hok hl hq⟩
+
 /-- a blank after the opening parenthesis is a sufficient, purely syntactic condition for a group to be covered -/
 theorem group_with_leading_blank_is_covered (pr : Bool) (q : Qy) (h : goodQ q = true) :
     goodE (.grp true pr q) = true := by
@@ -257,6 +275,7 @@ theorem C06_parse_sem_full_false :
 def exampleTree : Qy :=
   .or (.one (.grp true false (.one (.one (.atom .file 0 false [109,97,105,110] [])))))
       (.one (.cons (.neg (.atom .text 0 false [102,111,111] [])) (.one (.caseD 0))))
-example : goodQ exampleTree = true ∧ semOKQ exampleTree = true ∧ (typesOfQ exampleTree).length ≤ 1 := by decide
+example : goodQ exampleTree = true ∧ semOKQ exampleTree = true ∧ (typesOfQ exampleTree).length ≤ 1 ∧
+    operandsOK exampleTree = true ∧ wfQ tightOracle exampleTree = true := by decide
 
 end ZoektModel.C06
